@@ -111,8 +111,13 @@ def item_missing_markers(repo):
     res = {}
     res["is_missing_data_marker"] = sorted(_in_sets_of_func(tree, "is_missing_data_marker")[0])
     res["float_convert"] = sorted(_in_sets_of_func(tree, "_float_convert")[0])
-    res["to_datetime"] = sorted(_in_sets_of_func(tree, "_to_datetime")[0])
-    res["parse_datetime_column"] = sorted(_in_sets_of_func(tree, "_parse_datetime_column")[0])
+    # since the D7 fix the datetime parser calls is_missing_data_marker; record whether it still does
+    res["datetime_uses_is_missing_data_marker"] = [
+        fn for fn in ("_to_datetime", "_parse_datetime_column")
+        if any(isinstance(n, ast.Call) and ast.unparse(n.func) == "is_missing_data_marker"
+               for n in ast.walk(_find_func(tree, fn)))]
+    res["datetime_local_sets"] = [sorted(x) for fn in ("_to_datetime", "_parse_datetime_column")
+                                  for x in _in_sets_of_func(tree, fn)]
     return res
 
 
@@ -288,8 +293,12 @@ def render(vals) -> str:
     L.append("/-- columns.py missing-data marker spellings, one list per use site -/")
     L.append(f"def missingIsMarker : List (List Char) := {lean_strlist(mm['is_missing_data_marker'])}")
     L.append(f"def missingFloatConvert : List (List Char) := {lean_strlist(mm['float_convert'])}")
-    L.append(f"def missingToDatetime : List (List Char) := {lean_strlist(mm['to_datetime'])}")
-    L.append(f"def missingDatetimeColumn : List (List Char) := {lean_strlist(mm['parse_datetime_column'])}")
+    L.append("/-- datetime parser functions that delegate the marker test to is_missing_data_marker -/")
+    L.append("def datetimeMarkerDelegates : List String := [" + ", ".join(
+        lean_str(x) for x in mm['datetime_uses_is_missing_data_marker']) + "]")
+    L.append("/-- marker sets spelled locally in the datetime parser (none expected) -/")
+    L.append("def datetimeLocalSets : List (List (List Char)) := [" + ", ".join(
+        lean_strlist(x) for x in mm['datetime_local_sets']) + "]")
     L.append("")
     L.append("/-- columns.py `_onoff_to_bool.conversions`: (python type of key, str(key), value) -/")
     L.append("def onoffTable : List (String × String × Bool) := [" + ", ".join(
